@@ -32,7 +32,10 @@ LINK_reach :=
 LINK_tsi   := -Wl,--wrap=__cxa_guard_acquire -Wl,--wrap=__cxa_guard_release \
               -Wl,--wrap=__cxa_guard_abort -Wl,--wrap=memcpy -Wl,--wrap=memmove \
               -Wl,--wrap=memset -Wl,--wrap=pthread_mutex_lock \
-              -Wl,--wrap=pthread_mutex_unlock -Wl,--wrap=pthread_mutex_trylock
+              -Wl,--wrap=pthread_mutex_unlock -Wl,--wrap=pthread_mutex_trylock \
+              -Wl,--wrap=strtok -Wl,--wrap=rand -Wl,--wrap=srand -Wl,--wrap=random \
+              -Wl,--wrap=strerror -Wl,--wrap=localtime -Wl,--wrap=gmtime \
+              -Wl,--wrap=setlocale
 
 SRCS_common := main.cc alloc.cc steps.cc pool.cc work.cc geom.cc faults.cc chan.cc \
                prim.cc env.cc legacy_eb.cc
